@@ -104,6 +104,8 @@ type c19Case struct {
 	strace     string // "", "openat-eacces", "write-enospc"
 	outIsDir   bool   // the output file path already exists as a directory
 	outIsInput bool   // the output path of one of the targets is the input file
+	staleTwin  bool   // the stale outputs have the size of the new outputs and are newer than the input
+	invoke     string // "" = absolute path of the binary, "path" = bare name found through PATH, "symlink" = through a symbolic link in the work directory, "relative" = relative path from a sub directory
 	badArgs    []string // complete argument list for bad-option cases (placeholders IN, OUT)
 }
 
@@ -122,7 +124,7 @@ func checkC19(c *Check) {
 	cases := []c19Case{}
 	orders := []string{"iot", "ito", "oit", "oti", "tio", "toi"}
 	tsets := [][]string{{"bash"}, {"batch"}, {"bash", "batch"}, {"batch", "bash"}, {"bash", "bash"}, {"bash", "batch", "bash"}, {"batch", "batch"}}
-	names := []string{"a.tsh", "a.b.tsh", "noext", ".tsh", "my prog.tsh", "dir/sub/a.tsh", "UPPER.TSH", "a.tsh.bak", "-prog.tsh", "-", "--in", "-t", "a-b.tsh", "dir/sub/-x.tsh"}
+	names := []string{"a.tsh", "a.b.tsh", "noext", ".tsh", "my prog.tsh", "dir/sub/a.tsh", "UPPER.TSH", "a.tsh.bak", "-prog.tsh", "-", "--in", "-t", "a-b.tsh", "dir/sub/-x.tsh", "tools.tsh", "fetch.tsh", "unit test.tsh", "s.tsh", "sh.tsh", "t.h.tsh", "a..tsh", "hosts", "dir/sub/paths.tsh"}
 	outs := []string{".", "out", "ABS:absout", "out dir/with blank", "dir/sub", "-out", "--type"}
 	n := 0
 	for pi, p := range progs {
@@ -183,6 +185,19 @@ func checkC19(c *Check) {
 			}
 			cases = append(cases, c19Case{key: fmt.Sprintf("output-is-input/%s/in=%s/t=%s", p.name, hexKey(c2.in), strings.Join(c2.ts, "+")), prog: p, inputName: c2.in, outDir: od, targets: c2.ts, argOrder: "iot", outIsInput: true})
 			// a hard link or symbolic link to the input standing at the output path is the input as well
+		}
+	}
+	// what stands at the output paths looks up to date (size of the output to come, younger than the input)
+	for _, p := range []c19Prog{progs[0], progs[1], progs[5], progs[6]} {
+		for _, ts := range [][]string{{"bash"}, {"batch"}, {"bash", "batch"}} {
+			cases = append(cases, c19Case{key: fmt.Sprintf("stale-twin/%s/t=%s", p.name, strings.Join(ts, "+")), prog: p, inputName: "main.tsh", outDir: "out", targets: ts, argOrder: "iot", stale: true, staleTwin: true})
+		}
+	}
+	// the command found through PATH by its bare name, and through a symbolic link, from a directory that has
+	// nothing to do with the place of the binary: programs importing the standard library included
+	for _, p := range progs {
+		for _, inv := range []string{"path", "symlink"} {
+			cases = append(cases, c19Case{key: fmt.Sprintf("invoked-by/%s/%s", inv, p.name), prog: p, inputName: "main.tsh", outDir: "out", targets: []string{"bash", "batch"}, argOrder: "iot", invoke: inv})
 		}
 	}
 	// bad options
@@ -256,6 +271,14 @@ func c19Run(c *Check, cs c19Case, straceOK bool) {
 	base := filepath.Base(inRel)
 	base = base[:len(base)-len(filepath.Ext(base))]
 	expectFiles := map[string]string{} // relative to work -> expected content, for successful targets
+	earlyRefs := map[string]TResult{}
+	if cs.staleTwin {
+		for _, t := range cs.targets {
+			if _, ok := earlyRefs[t]; !ok {
+				earlyRefs[t] = TranspileFile(filepath.Join(work, inRel), Target(t), 30*time.Second)
+			}
+		}
+	}
 	if cs.stale {
 		for _, e := range []string{"sh", "bat"} {
 			os.WriteFile(filepath.Join(outAbs, base+"."+e), []byte("STALE OUTPUT\n"), 0o644)
@@ -279,6 +302,18 @@ func c19Run(c *Check, cs c19Case, straceOK bool) {
 		}
 		return nil
 	})
+	if cs.staleTwin {
+		// what stands at the output paths has the size of the output to come and is younger than the input: only
+		// its bytes tell it apart
+		younger := time.Now().Add(-1 * time.Hour)
+		for t, r := range earlyRefs {
+			if r.OK() {
+				pth := filepath.Join(outAbs, base+"."+extOf(t))
+				os.WriteFile(pth, []byte(strings.Repeat("#", len(r.Script))), 0o644)
+				os.Chtimes(pth, younger, younger)
+			}
+		}
+	}
 	// reference outputs from the library
 	inAbs := filepath.Join(work, inRel)
 	refs := map[string]TResult{}
@@ -353,6 +388,18 @@ func c19Run(c *Check, cs c19Case, straceOK bool) {
 		cmd = exec.Command(tshPath(), args...)
 	}
 	cmd.Dir = work
+	switch cs.invoke {
+	case "path":
+		// found by its bare name through PATH (argv[0] is then just "tsh")
+		cmd = &exec.Cmd{Path: tshPath(), Args: append([]string{"tsh"}, args...), Dir: work}
+	case "symlink":
+		link := filepath.Join(work, ".tsh-link")
+		os.Symlink(tshPath(), link)
+		defer os.Remove(link)
+		cmd = exec.Command(link, args...)
+		cmd.Dir = work
+		before[".tsh-link"] = stampTree(work)[".tsh-link"]
+	}
 	var outb, errb strings.Builder
 	cmd.Stdout = &outb
 	cmd.Stderr = &errb
